@@ -2,18 +2,17 @@ package hpacket
 
 import (
 	packettypes "github.com/bianjieai/tibc-go/modules/tibc/core/04-packet/types"
+	host "github.com/bianjieai/tibc-go/modules/tibc/core/24-host"
 	"github.com/bianjieai/tibc-go/zzverif/vp"
 )
 
 // counterPre installs an arbitrary next-sequence counter for p's channel (or none) and returns its value.
 func counterPre(k keeperT, ctx ctxT, src, dst string) uint64 {
-	pre := uint64(1)
-	if vp.Bool("pre.hasCounter") {
-		pre = vp.Uint64("pre.next")
-		vp.Assume(pre >= 1 && pre < 99)
-		k.SetNextSequenceSend(ctx, src, dst, pre)
-	}
-	return pre
+	has := vp.Bool("pre.hasCounter")
+	v := vp.Uint64("pre.next")
+	vp.Assume(v >= 1 && v < 99)
+	vp.SetIf(has, func() { k.SetNextSequenceSend(ctx, src, dst, v) })
+	return vp.IteU64(has, v, 1)
 }
 
 // H_C09_send: one SendPacket step from an arbitrary counter state.
@@ -22,6 +21,7 @@ func H_C09_send() {
 	p := nondetPacket("p")
 	vp.Assume(p.Sequence < 100) // bound: decimal key building
 	pre := counterPre(k, ctx, p.SourceChain, p.DestinationChain)
+	mark := vp.StoreMark(ctx, "tibc")
 
 	err := k.SendPacket(ctx, p)
 
@@ -39,69 +39,25 @@ func H_C09_send() {
 		vp.Assert(len(p.Data) > 0 && p.Sequence != 0, "C09.3 empty data / zero sequence rejected")
 		vp.Assert(vp.NumEvents(ctx, packettypes.EventTypeSendPacket) == 1, "C09.1 exactly one send_packet event")
 		ev := packettypes.EventTypeSendPacket
-		vp.Assert(vp.EventAttr(ctx, ev, 0, packettypes.AttributeKeySrcChain) == p.SourceChain, "C09.1 event announces the source chain")
-		vp.Assert(vp.EventAttr(ctx, ev, 0, packettypes.AttributeKeyDstChain) == p.DestinationChain, "C09.1 event announces the destination chain")
-		vp.Assert(vp.EventAttr(ctx, ev, 0, packettypes.AttributeKeyRelayChain) == p.RelayChain, "C09.1 event announces the relay chain")
-		vp.Assert(vp.EventAttr(ctx, ev, 0, packettypes.AttributeKeyPort) == p.Port, "C09.1 event announces the port")
-		vp.Assert(vp.EventAttr(ctx, ev, 0, packettypes.AttributeKeyData) == string(p.Data), "C09.1 event announces the data")
-		vp.Assert(vp.EventAttr(ctx, ev, 0, packettypes.AttributeKeySequence) == decimal(p.Sequence), "C09.1 event announces the sequence")
+		vp.Assert(vp.And(
+			vp.EventAttr(ctx, ev, 0, packettypes.AttributeKeySrcChain) == p.SourceChain,
+			vp.EventAttr(ctx, ev, 0, packettypes.AttributeKeyDstChain) == p.DestinationChain,
+			vp.EventAttr(ctx, ev, 0, packettypes.AttributeKeyRelayChain) == p.RelayChain,
+			vp.EventAttr(ctx, ev, 0, packettypes.AttributeKeyPort) == p.Port,
+			vp.EventAttr(ctx, ev, 0, packettypes.AttributeKeyData) == string(p.Data),
+			vp.EventAttr(ctx, ev, 0, packettypes.AttributeKeySequence) == decimal(p.Sequence)),
+			"C09.1 the event announces the packet's six fields")
+		vp.Assert(onlyWrote(ctx, mark,
+			host.NextSequenceSendKey(p.SourceChain, p.DestinationChain),
+			host.PacketCommitmentKey(p.SourceChain, p.DestinationChain, p.Sequence)),
+			"C09.4 a send writes only its channel's counter and its own commitment")
 	} else {
 		vp.Reach("send rejected")
 		vp.Assert(vp.NumEvents(ctx, packettypes.EventTypeSendPacket) == 0, "C09.2 a rejected send is not announced")
-		vp.Note(k.GetNextSequenceSend(ctx, p.SourceChain, p.DestinationChain) == pre, "diag: rejected send left the counter (keeper level; BaseApp discards the branch anyway)")
-		vp.Note(len(k.GetPacketCommitment(ctx, p.SourceChain, p.DestinationChain, p.Sequence)) == 0, "diag: rejected send left no commitment (keeper level)")
+		vp.Note(vp.StoreMark(ctx, "tibc") == mark, "diag: rejected send wrote nothing (keeper level; BaseApp discards the branch anyway)")
 	}
 	// completeness: a well-formed next packet towards a known hop is accepted
 	if p.SourceChain == w.self && hasClient(w, target) && len(p.Data) > 0 && p.Sequence == pre {
 		vp.Assert(err == nil, "C09.2 well-formed next packet is accepted")
 	}
-}
-
-// H_C09_send_frame: SendPacket changes no other channel's counter and no other commitment.
-func H_C09_send_frame() {
-	_, k, ctx := newWorld()
-	p := nondetPacket("p")
-	vp.Assume(p.Sequence < 100)
-	q := nondetPacket("q")
-	vp.Assume(q.Sequence < 100 && q.Sequence >= 1)
-	sameChannel := q.SourceChain == p.SourceChain && q.DestinationChain == p.DestinationChain
-	qNext := vp.Uint64("pre.qnext")
-	vp.Assume(qNext >= 1 && qNext < 99)
-	k.SetNextSequenceSend(ctx, q.SourceChain, q.DestinationChain, qNext)
-	if !sameChannel {
-		counterPre(k, ctx, p.SourceChain, p.DestinationChain)
-	}
-	qHasCommit := vp.Bool("pre.qcommit")
-	qc := packettypes.CommitPacket(q)
-	if qHasCommit {
-		k.SetPacketCommitment(ctx, q.SourceChain, q.DestinationChain, q.Sequence, qc)
-	}
-	qHasAck := vp.Bool("pre.qack")
-	if qHasAck {
-		k.SetPacketAcknowledgement(ctx, q.SourceChain, q.DestinationChain, q.Sequence, qc)
-	}
-	qHasReceipt := vp.Bool("pre.qreceipt")
-	if qHasReceipt {
-		k.SetPacketReceipt(ctx, q.SourceChain, q.DestinationChain, q.Sequence)
-	}
-
-	err := k.SendPacket(ctx, p)
-	if err == nil {
-		vp.Reach("send accepted (frame)")
-	} else {
-		vp.Reach("send rejected (frame)")
-	}
-	if !sameChannel {
-		vp.Assert(k.GetNextSequenceSend(ctx, q.SourceChain, q.DestinationChain) == qNext, "C09.4 other channels' counters untouched")
-	}
-	if !(sameChannel && q.Sequence == p.Sequence) {
-		got := k.GetPacketCommitment(ctx, q.SourceChain, q.DestinationChain, q.Sequence)
-		if qHasCommit {
-			vp.Assert(sameBytes(got, qc), "C09.4 other commitments untouched")
-		} else {
-			vp.Assert(len(got) == 0, "C09.4 no commitment appears elsewhere")
-		}
-	}
-	vp.Assert(k.HasPacketAcknowledgement(ctx, q.SourceChain, q.DestinationChain, q.Sequence) == qHasAck, "C09.4 acknowledgements untouched by a send")
-	vp.Assert(k.HasPacketReceipt(ctx, q.SourceChain, q.DestinationChain, q.Sequence) == qHasReceipt, "C09.4 receipts untouched by a send")
 }
